@@ -72,7 +72,7 @@ __CPROVER_requires(__CPROVER_r_ok(hostport, sizeof(bstr)) && __CPROVER_w_ok(host
 __CPROVER_assigns(*hostname, *port_number, *flags)
 __CPROVER_ensures(__CPROVER_return_value == g_c11_hp_rc)
 __CPROVER_ensures(__CPROVER_return_value == HTP_OK ==> (*port_number == g_c11_hp_port &&
-    (g_c11_hp_valid ? __CPROVER_is_fresh(*hostname, sizeof(bstr) + 8) : *hostname == NULL) &&
+    (*hostname == NULL || __CPROVER_is_fresh(*hostname, sizeof(bstr) + 8)) && (*hostname != NULL) == (g_c11_hp_valid != 0) &&
     *flags == (O(*flags) | (g_c11_hp_invalid ? HTP_HOSTH_INVALID : 0))))
 __CPROVER_ensures(__CPROVER_return_value != HTP_OK ==> *flags == O(*flags))
 ;
@@ -88,7 +88,7 @@ __CPROVER_assigns() __CPROVER_ensures(1)
 bstr *contract_c11_bstr_dup(const bstr *b)
 __CPROVER_requires(b != NULL)
 __CPROVER_assigns()
-__CPROVER_ensures(g_c11_dup_fail ? __CPROVER_return_value == NULL : __CPROVER_is_fresh(__CPROVER_return_value, sizeof(bstr) + 8))
+__CPROVER_ensures(__CPROVER_return_value == NULL || __CPROVER_is_fresh(__CPROVER_return_value, sizeof(bstr) + 8))
 ;
 void contract_c11_bstr_free(bstr *b)
 __CPROVER_requires(b == NULL || __CPROVER_is_freeable(b))
@@ -105,7 +105,7 @@ __CPROVER_assigns(connp->req_decompressor) __CPROVER_ensures(connp->req_decompre
 htp_decompressor_t *contract_c11_htp_gzip_decompressor_create(htp_connp_t *connp, enum htp_content_encoding_t format)
 __CPROVER_requires(format == HTP_COMPRESSION_GZIP || format == HTP_COMPRESSION_DEFLATE || format == HTP_COMPRESSION_LZMA)
 __CPROVER_assigns()
-__CPROVER_ensures(g_c11_dec_fail ? __CPROVER_return_value == NULL : __CPROVER_is_fresh(__CPROVER_return_value, sizeof(htp_decompressor_t)))
+__CPROVER_ensures(__CPROVER_return_value == NULL || __CPROVER_is_fresh(__CPROVER_return_value, sizeof(htp_decompressor_t)))
 ;
 htp_status_t contract_c11_htp_parse_ct_header(bstr *header, bstr **ct)
 __CPROVER_requires(__CPROVER_r_ok(header, sizeof(bstr)) && __CPROVER_w_ok(ct, sizeof(*ct)))
@@ -181,8 +181,8 @@ __CPROVER_ensures((tx->flags & O(tx->flags)) == O(tx->flags))
 /* 0'. completeness of the guards: success means both blocks ran; the arbitration block is skipped only when decompressor set-up failed */
 __CPROVER_ensures(__CPROVER_return_value == HTP_OK ==> (T_FRAMED && T_HOSTED))
 __CPROVER_ensures(T_HOSTED ==> T_FRAMED)
-__CPROVER_ensures((!tx->connp->cfg->request_decompression_enabled || g_c11_hdr_ce == NULL || !g_c11_dec_fail) ==> T_FRAMED)
-__CPROVER_ensures((T_FRAMED && !g_c11_dup_fail && tx->request_method_number != HTP_M_PUT && (!T_HOST || g_c11_hp_rc == HTP_OK)) ==> T_HOSTED)
+__CPROVER_ensures((!tx->connp->cfg->request_decompression_enabled || g_c11_hdr_ce == NULL) ==> T_FRAMED)
+__CPROVER_ensures((T_FRAMED && !T_URIHOST(tx) && tx->request_method_number != HTP_M_PUT && (!T_HOST || g_c11_hp_rc == HTP_OK)) ==> T_HOSTED)
 #ifndef C11_NO_FRAMING
 /* ---- framing rows -------------------------------------------------------------------------------------- */
 /* 1. chunked T-E together with C-L: smuggling, body framed by the chunked coding */
@@ -234,5 +234,166 @@ __CPROVER_ensures((T_HOSTED && T_URIHOST(tx)) ==> (tx->request_hostname != NULL 
 __CPROVER_ensures((tx->flags & ~(HTP_REQUEST_SMUGGLING | HTP_REQUEST_INVALID_T_E | HTP_REQUEST_INVALID_C_L | HTP_REQUEST_INVALID | HTP_HOST_MISSING | HTP_HOST_AMBIGUOUS | HTP_HOSTH_INVALID | HTP_AUTH_INVALID)) ==
                   (O(tx->flags) & ~(HTP_REQUEST_SMUGGLING | HTP_REQUEST_INVALID_T_E | HTP_REQUEST_INVALID_C_L | HTP_REQUEST_INVALID | HTP_HOST_MISSING | HTP_HOST_AMBIGUOUS | HTP_HOSTH_INVALID | HTP_AUTH_INVALID)))
 #endif
+;
+
+/* ================= Part 2: producer of HTP_FIELD_REPEATED ================================================== */
+/* E = the header already stored under the same name: the replaced htp_table_get answers E when g_c11_have_ex, NULL otherwise (first occurrence).
+ * E is a real object in both cases so that __CPROVER_old(E->...) is always readable (old() is evaluated unconditionally on entry). */
+#define C11_E C11_HDR(g_c11_ex)
+htp_status_t contract_c11_htp_parse_request_header_generic(htp_connp_t *connp, htp_header_t *h, unsigned char *data, size_t len)
+__CPROVER_requires(__CPROVER_rw_ok(h, sizeof(*h)) && h->name == NULL && h->value == NULL && h->flags == 0)
+__CPROVER_assigns(h->name, h->value, h->flags, g_c11_name, g_c11_value, g_c11_h)
+__CPROVER_ensures(__CPROVER_return_value == g_c11_parse_rc && g_c11_h == (void *) h)
+__CPROVER_ensures(__CPROVER_return_value == HTP_OK ==> (__CPROVER_is_fresh(h->name, sizeof(bstr) + 16) && __CPROVER_is_fresh(h->value, sizeof(bstr) + C11_VALCAP) &&
+    h->value->realptr == NULL && h->value->size == C11_VALCAP && h->value->len == g_c11_newlen && g_c11_name == (void *) h->name && g_c11_value == (void *) h->value))
+;
+void *contract_c11_htp_table_get(const htp_table_t *table, const bstr *key)
+__CPROVER_requires(key != NULL && (const void *) key == g_c11_name)
+__CPROVER_assigns()
+__CPROVER_ensures((g_c11_have_ex != 0 ==> __CPROVER_pointer_equals(__CPROVER_return_value, g_c11_ex)) && (g_c11_have_ex == 0 ==> __CPROVER_return_value == NULL))
+;
+htp_status_t contract_c11_htp_table_add(htp_table_t *table, const bstr *key, const void *element)
+__CPROVER_requires(g_c11_add_n == 0)
+__CPROVER_assigns(g_c11_add_n, g_c11_add_key, g_c11_add_el)
+__CPROVER_ensures(g_c11_add_n == 1 && g_c11_add_key == (const void *) key && g_c11_add_el == element && __CPROVER_return_value == g_c11_add_rc)
+;
+void contract_c11_htp_log(htp_connp_t *connp, const char *file, int line, enum htp_log_level_t level, int code, const char *fmt, ...)
+__CPROVER_requires(1) __CPROVER_assigns() __CPROVER_ensures(1);
+int contract_c11_bstr_cmp_c_nocase(const bstr *b, const char *c)
+__CPROVER_requires((const void *) b == g_c11_name && c != NULL && c[0] == 'C' && c[7] == '-' && c[8] == 'L' && c[14] == 0)
+__CPROVER_assigns()
+__CPROVER_ensures(__CPROVER_return_value == g_c11_isclen)
+;
+/* ownership log for the parsed name / value: a second release of the same string is refused (asserted at the call site) */
+void contract_c11log_bstr_free(bstr *b)
+__CPROVER_requires(b != NULL && ((void *) b == g_c11_name || (void *) b == g_c11_value))
+__CPROVER_requires(((void *) b == g_c11_name ==> g_c11_free_name == 0) && ((void *) b == g_c11_value ==> g_c11_free_value == 0))
+__CPROVER_assigns(g_c11_free_name, g_c11_free_value)
+__CPROVER_ensures(g_c11_free_name == ((void *) b == g_c11_name ? 1 : O(g_c11_free_name)) && g_c11_free_value == ((void *) b == g_c11_value ? 1 : O(g_c11_free_value)))
+;
+/* growing the stored value: NULL (allocation failure / refusal) or a string of exactly the requested capacity with the old length */
+bstr *contract_c11_bstr_expand(bstr *b, size_t newsize)
+__CPROVER_requires(__CPROVER_rw_ok(b, sizeof(bstr)) && g_c11_exp_n == 0 && newsize <= 2 * C11_VALCAP + 2)
+__CPROVER_assigns(g_c11_exp_n, g_c11_exp_req)
+__CPROVER_ensures(g_c11_exp_n == 1 && g_c11_exp_req == newsize)
+__CPROVER_ensures(__CPROVER_return_value == NULL || (__CPROVER_is_fresh(__CPROVER_return_value, sizeof(bstr) + 2 * C11_VALCAP + 2) &&
+    __CPROVER_return_value->len == O(b->len) && __CPROVER_return_value->size == newsize && __CPROVER_return_value->realptr == NULL))
+;
+#define C11_ROOM(b, n) (O((b)->len) + (n) <= (b)->size ? (n) : ((b)->size > O((b)->len) ? (b)->size - O((b)->len) : 0))
+bstr *contract_c11_bstr_add_mem_noex(bstr *destination, const void *data, size_t len)
+__CPROVER_requires(__CPROVER_rw_ok(destination, sizeof(bstr)) && len == 2 && __CPROVER_r_ok(data, len) && g_c11_addmem_n == 0 && g_c11_addb_n == 0)
+__CPROVER_assigns(destination->len, g_c11_addmem_n, g_c11_sep0, g_c11_sep1)
+__CPROVER_ensures(g_c11_addmem_n == 1 && g_c11_sep0 == ((const unsigned char *) data)[0] && g_c11_sep1 == ((const unsigned char *) data)[1])
+__CPROVER_ensures(__CPROVER_return_value == destination && destination->len == O(destination->len) + C11_ROOM(destination, len))
+;
+bstr *contract_c11_bstr_add_noex(bstr *destination, const bstr *source)
+__CPROVER_requires(__CPROVER_rw_ok(destination, sizeof(bstr)) && __CPROVER_r_ok(source, sizeof(bstr)) && g_c11_addmem_n == 1 && g_c11_addb_n == 0)
+__CPROVER_assigns(destination->len, g_c11_addb_n, g_c11_addb_src)
+__CPROVER_ensures(g_c11_addb_n == 1 && g_c11_addb_src == (const void *) source)
+__CPROVER_ensures(__CPROVER_return_value == destination && destination->len == O(destination->len) + C11_ROOM(destination, source->len))
+;
+
+#define P_PARSED   (g_c11_parse_rc == HTP_OK)
+#define P_SECOND   (P_PARSED && g_c11_have_ex != 0)                         /* same-name header already stored */
+#define P_WAS_REP  (HAS(O(C11_E->flags), HTP_FIELD_REPEATED))
+#define P_DROPPED(c) (P_SECOND && P_WAS_REP && O((c)->in_tx->req_header_repetitions) >= HTP_MAX_HEADERS_REPETITIONS)
+#define P_MERGE(c) (P_SECOND && !P_DROPPED(c) && g_c11_isclen != 0)
+#define P_STORED   (P_PARSED && g_c11_have_ex == 0 && g_c11_add_rc == HTP_OK)
+htp_status_t contract_htp_process_request_header_generic(htp_connp_t *connp, unsigned char *data, size_t len)
+__CPROVER_requires(__CPROVER_is_fresh(connp, sizeof(*connp)) && __CPROVER_is_fresh(connp->in_tx, sizeof(htp_tx_t)))
+__CPROVER_requires(g_c11_ex != NULL && C11_GHOST_HDR(g_c11_ex) && g_c11_newlen <= C11_VALCAP && (g_c11_have_ex == 0 || g_c11_have_ex == 1))
+__CPROVER_requires((g_c11_parse_rc == HTP_OK || g_c11_parse_rc == HTP_ERROR) && (g_c11_add_rc == HTP_OK || g_c11_add_rc == HTP_ERROR))
+__CPROVER_requires(g_c11_free_name == 0 && g_c11_free_value == 0 && g_c11_add_n == 0 && g_c11_exp_n == 0 && g_c11_addmem_n == 0 && g_c11_addb_n == 0 && g_c11_h == NULL)
+/* C10: the repetition counter is within its cap on entry (it is 0 in a new transaction and only this function moves it) */
+__CPROVER_requires(connp->in_tx->req_header_repetitions <= HTP_MAX_HEADERS_REPETITIONS)
+__CPROVER_assigns(g_c11_name, g_c11_value, g_c11_h, g_c11_free_name, g_c11_free_value, g_c11_add_n, g_c11_add_key, g_c11_add_el, g_c11_exp_n, g_c11_exp_req,
+    g_c11_addmem_n, g_c11_sep0, g_c11_sep1, g_c11_addb_n, g_c11_addb_src, connp->in_tx->req_header_repetitions;
+    C11_E->flags, C11_E->value)
+__CPROVER_ensures(__CPROVER_return_value == HTP_OK || __CPROVER_return_value == HTP_ERROR)
+/* header allocation or parse failure: error, nothing stored, nothing marked */
+__CPROVER_ensures(g_c11_h == NULL ==> (__CPROVER_return_value == HTP_ERROR && g_c11_add_n == 0))
+__CPROVER_ensures((g_c11_h != NULL && !P_PARSED) ==> (__CPROVER_return_value == HTP_ERROR && g_c11_add_n == 0 && g_c11_exp_n == 0))
+/* 1. a second header with the same name marks the STORED header as repeated, on every path (also when the newcomer is dropped or memory runs out) */
+__CPROVER_ensures((g_c11_h != NULL && P_SECOND) ==> C11_E->flags == (O(C11_E->flags) | HTP_FIELD_REPEATED))
+__CPROVER_ensures(!(g_c11_h != NULL && P_SECOND) ==> (C11_E->flags == O(C11_E->flags) && C11_E->value == O(C11_E->value)))
+/* 2. repetition counter: capped, moves by one only for the third and later occurrences (C10) */
+__CPROVER_ensures(connp->in_tx->req_header_repetitions <= HTP_MAX_HEADERS_REPETITIONS)
+__CPROVER_ensures(connp->in_tx->req_header_repetitions == O(connp->in_tx->req_header_repetitions) +
+    ((g_c11_h != NULL && P_SECOND && P_WAS_REP && O(connp->in_tx->req_header_repetitions) < HTP_MAX_HEADERS_REPETITIONS) ? 1 : 0))
+/* 2'. beyond the cap the newcomer is dropped: nothing merged, nothing stored, success */
+__CPROVER_ensures((g_c11_h != NULL && P_DROPPED(connp)) ==> (__CPROVER_return_value == HTP_OK && g_c11_exp_n == 0 && g_c11_add_n == 0 && C11_E->value == O(C11_E->value)))
+/* 3. Content-Length is never merged: the stored value object and its length are untouched */
+__CPROVER_ensures((g_c11_h != NULL && P_SECOND && g_c11_isclen == 0) ==> (g_c11_exp_n == 0 && g_c11_addmem_n == 0 && g_c11_addb_n == 0 && g_c11_add_n == 0 &&
+    C11_E->value == O(C11_E->value) && C11_E->value->len == O(C11_E->value->len) && (__CPROVER_return_value == HTP_OK || P_DROPPED(connp))))
+/* 4. any other name: stored value := old ", " new  (capacity asked for = len + 2 + n; separator bytes; then the parsed value) */
+__CPROVER_ensures((g_c11_h != NULL && P_MERGE(connp)) ==> (g_c11_exp_n == 1 && g_c11_exp_req == O(C11_E->value->len) + 2 + g_c11_newlen && g_c11_add_n == 0))
+__CPROVER_ensures((g_c11_h != NULL && P_MERGE(connp) && __CPROVER_return_value == HTP_OK) ==> (g_c11_addmem_n == 1 && g_c11_sep0 == ',' && g_c11_sep1 == ' ' &&
+    g_c11_addb_n == 1 && g_c11_addb_src == (const void *) g_c11_value && C11_E->value != NULL && C11_E->value->len == O(C11_E->value->len) + 2 + g_c11_newlen &&
+    C11_E->value->size == C11_E->value->len))
+__CPROVER_ensures((g_c11_h != NULL && P_MERGE(connp) && __CPROVER_return_value != HTP_OK) ==> (C11_E->value == O(C11_E->value) && g_c11_addmem_n == 0))
+/* 5. first occurrence: offered to the table under its own name, once */
+__CPROVER_ensures((g_c11_h != NULL && P_PARSED && g_c11_have_ex == 0) ==> (g_c11_add_n == 1 && g_c11_add_key == (const void *) g_c11_name && g_c11_add_el == (const void *) g_c11_h && __CPROVER_return_value == HTP_OK))
+/* 6. ownership of the parsed name and value (C18): kept iff the header was stored, released exactly once otherwise (a second release is refused by the stub) */
+__CPROVER_ensures((g_c11_h != NULL && P_STORED) ==> (g_c11_free_name == 0 && g_c11_free_value == 0))
+__CPROVER_ensures((g_c11_h != NULL && P_PARSED && !P_STORED) ==> (g_c11_free_name == 1 && g_c11_free_value == 1))
+;
+
+/* ================= Part 3: leaves ======================================================================== */
+/* token search: safety, termination, result in {HTP_OK, HTP_ERROR}; read-only, symbolic length; the needle is the one
+ * every call site passes ("chunked", lower-case, NUL-terminated).  Equality with the reference: bounded unit ref_header_has_token. */
+#define C11_NEEDLE(v) (__CPROVER_is_fresh((v), 8) && (v)[0] == 'c' && (v)[1] == 'h' && (v)[2] == 'u' && (v)[3] == 'n' && (v)[4] == 'k' && (v)[5] == 'e' && (v)[6] == 'd' && (v)[7] == 0)
+htp_status_t contract_htp_header_has_token(const unsigned char *hvp, size_t hvlen, const unsigned char *value)
+__CPROVER_requires(hvlen <= VCAP && __CPROVER_is_fresh(hvp, hvlen) && C11_NEEDLE(value))
+__CPROVER_assigns()
+__CPROVER_ensures(__CPROVER_return_value == HTP_OK || __CPROVER_return_value == HTP_ERROR)
+/* a hit needs room for the token */
+__CPROVER_ensures(__CPROVER_return_value == HTP_OK ==> hvlen >= 7)
+;
+
+/* relaxed host name syntax: what makes a Host value "syntactically invalid" */
+int contract_htp_validate_hostname(bstr *hostname)
+__CPROVER_requires(RO_BSTR(hostname))
+__CPROVER_assigns()
+__CPROVER_ensures(__CPROVER_return_value == 0 || __CPROVER_return_value == 1 || (bstr_len(hostname) > 0 && bstr_ptr(hostname)[0] == '[' /* inet_pton's answer, unmodelled */))
+__CPROVER_ensures((bstr_len(hostname) == 0 || bstr_len(hostname) > 255) ==> __CPROVER_return_value == 0)
+/* not an IPv6 literal: any byte outside [A-Za-z0-9_-] and '.' invalidates (witness gk = any position) */
+__CPROVER_ensures((bstr_len(hostname) > 0 && bstr_ptr(hostname)[0] != '[' && gk < bstr_len(hostname) && !C11_HOSTCH(bstr_ptr(hostname)[gk]) && bstr_ptr(hostname)[gk] != '.') ==> __CPROVER_return_value == 0)
+/* empty label: leading dot, or two dots in a row */
+__CPROVER_ensures((bstr_len(hostname) > 0 && bstr_ptr(hostname)[0] == '.') ==> __CPROVER_return_value == 0)
+__CPROVER_ensures((bstr_len(hostname) > 0 && bstr_ptr(hostname)[0] != '[' && gk + 1 < bstr_len(hostname) && bstr_ptr(hostname)[gk] == '.' && bstr_ptr(hostname)[gk + 1] == '.') ==> __CPROVER_return_value == 0)
+/* an IPv6 literal needs both brackets' room and must fit the address buffer */
+__CPROVER_ensures((bstr_len(hostname) > 0 && bstr_ptr(hostname)[0] == '[' && (bstr_len(hostname) < 2 || bstr_len(hostname) - 2 >= 46 /* INET6_ADDRSTRLEN */)) ==> __CPROVER_return_value == 0)
+;
+
+/* Host header value -> (hostname, port, invalid-host indicator): the wrapper around htp_parse_hostport + htp_validate_hostname */
+htp_status_t contract_c11s_htp_parse_hostport(bstr *hostport, bstr **hostname, bstr **port, int *port_number, int *invalid)
+__CPROVER_requires(hostport != NULL && __CPROVER_w_ok(hostname, sizeof(*hostname)) && port == NULL && __CPROVER_w_ok(port_number, sizeof(*port_number)) && __CPROVER_w_ok(invalid, sizeof(*invalid)))
+__CPROVER_assigns(*hostname, *port_number, *invalid)
+__CPROVER_ensures(__CPROVER_return_value == g_c11_hp_rc && (g_c11_hp_rc == HTP_OK || g_c11_hp_rc == HTP_ERROR))
+__CPROVER_ensures(__CPROVER_return_value == HTP_OK ==> (*invalid == g_c11_hp_invalid && (*hostname == NULL || __CPROVER_is_fresh(*hostname, sizeof(bstr) + 8)) &&
+    (*hostname != NULL) == (g_c11_hp_valid != 0) &&
+    /* enforced on the real htp_parse_hostport (units htp_parse_hostport / ref_parse_hostport): no hostname => invalid */
+    (*hostname == NULL ==> *invalid == 1)))
+;
+int contract_c11s_htp_validate_hostname(bstr *hostname)
+__CPROVER_requires(__CPROVER_r_ok(hostname, sizeof(bstr)))
+__CPROVER_assigns()
+__CPROVER_ensures(__CPROVER_return_value == g_c11_host_cmp)
+;
+htp_status_t contract_htp_parse_header_hostport(bstr *hostport, bstr **hostname, bstr **port, int *port_number, uint64_t *flags)
+__CPROVER_requires(__CPROVER_is_fresh(hostport, sizeof(bstr)) && __CPROVER_is_fresh(hostname, sizeof(*hostname)) && port == NULL &&
+                   __CPROVER_is_fresh(port_number, sizeof(*port_number)) && __CPROVER_is_fresh(flags, sizeof(*flags)))
+__CPROVER_assigns(*hostname, *port_number, *flags)
+__CPROVER_ensures(__CPROVER_return_value == g_c11_hp_rc)
+/* only the Host-header indicator, only ever raised */
+__CPROVER_ensures(*flags == O(*flags) || *flags == (O(*flags) | HTP_HOSTH_INVALID))
+__CPROVER_ensures(__CPROVER_return_value != HTP_OK ==> *flags == O(*flags))
+/* any syntactic defect reported by the authority parser, or a host name that fails validation, raises it */
+__CPROVER_ensures((__CPROVER_return_value == HTP_OK && g_c11_hp_invalid != 0) ==> HAS(*flags, HTP_HOSTH_INVALID))
+__CPROVER_ensures((__CPROVER_return_value == HTP_OK && *hostname != NULL && g_c11_host_cmp == 0) ==> HAS(*flags, HTP_HOSTH_INVALID))
+/* what the table unit assumes of its stub: no host name at all => indicator raised */
+__CPROVER_ensures((__CPROVER_return_value == HTP_OK && *hostname == NULL) ==> HAS(*flags, HTP_HOSTH_INVALID))
+/* and not raised for a clean value */
+__CPROVER_ensures((__CPROVER_return_value == HTP_OK && g_c11_hp_invalid == 0 && (*hostname == NULL || g_c11_host_cmp != 0)) ==> *flags == O(*flags))
 ;
 #endif
